@@ -115,7 +115,7 @@ def run(ctx):
     q = ctx.tier == 'quick'
     ws = [2, 3] if q else [2, 3, 4, 8]
     h = halts_extra(ctx)
-    diff_sweep(ctx, 'directed fault grid (access form x element type x storage x boundary index/divisor/length)', directed_units(rng, ws, 0), extra=h)
+    diff_sweep(ctx, 'directed fault grid (access form x element type x storage x boundary index/divisor/length)', directed_units(rng, ws, 0), extra=h, monitor=True)
     units = program_units(rng, 110 if q else 1500, ALL + ['faults'], [2, 3, 4] if q else WS, cfgs_per=4, seed_base=ctx.seed + 500)
-    diff_sweep(ctx, 'random programs with unguarded divisors/indices/lengths', units, extra=h)
+    diff_sweep(ctx, 'random programs with unguarded divisors/indices/lengths', units, extra=h, monitor=True)
     ctx.cov['rule'] = sweeps.RULE + '; directed grid = every access form x element type x storage class with the index/divisor/length driven by the input over the boundary grid'
